@@ -101,14 +101,16 @@ class C11(Prop):
             if sub not in (None, "fast") and int(S * sub) < max(L, 2):
                 continue
             w = [1.0] * m if rng.random() < 0.6 else [rng.randint(2, 8) / 4 for _ in range(m)]
+            # per-SAMPLE weights (register_targets(B, W) followed by fit_decomposition() on the registered targets)
+            Wrows = [[rng.randint(1, 8) / 4 for _ in range(m)] for _ in range(S)] if rng.random() < 0.3 else None
             cases.append({"sys": {k: (v.tolist() if isinstance(v, np.ndarray) else v) for k, v in sys.items()}, "B": B.tolist(), "w": w,
-                          "L": L, "Lmode": Lmode, "mask": mask, "equal": rng.random() < 0.6, "sub": sub, "lbp": lbp, "ubp": ubp,
+                          "L": L, "Lmode": Lmode, "mask": mask, "equal": rng.random() < 0.6, "Wrows": Wrows, "sub": sub, "lbp": lbp, "ubp": ubp,
                           "seed": rng.randint(0, 10 ** 6), "max_iter": rng.choice([1, 2, 5, 15, 30]), "solver": rng.choice(["default", "tight", "tight"]),
                           "kind": "L%d%s/%s/%s/sub-%s/%s" % (L, "" if Lmode == "given" else "d", "mask" if mask else "nomask",
                                                               "eq" if cases is not None and False else "", sub, kindB)})
             c = cases[-1]
             c["kind"] = "L%d%s/%s/%s/sub-%s/%s/%s" % (L, "" if Lmode == "given" else "d", "mask" if mask else "nomask", "eqL1" if c["equal"] else "free",
-                                                      sub, kindB, c["solver"])
+                                                      sub, kindB, c["solver"]) + ("/Wrows" if Wrows else "")
         return cases
 
     def call(self, case):
@@ -123,7 +125,12 @@ class C11(Prop):
         if case["solver"] == "tight":
             kw.update(TIGHT)
         core.drain_hooks()
-        X, P, Bp = est.fit_decomposition(np.array(case["B"]), **kw)
+        if case.get("Wrows"):
+            est.register_targets(np.array(case["B"]), W=np.array(case["Wrows"]))
+            est.fit_decomposition(**kw)
+            X, P, Bp = est.X, est.P, est.B
+        else:
+            X, P, Bp = est.fit_decomposition(np.array(case["B"]), **kw)
         recs = [kw2 for tag, kw2 in core.drain_hooks() if tag == "decomp.loss"]
         return np.asarray(X, dtype=float), np.asarray(P, dtype=float), np.asarray(Bp, dtype=float), recs
 
@@ -151,7 +158,7 @@ class C11(Prop):
         Ap = np.asarray(Ap, dtype=float); bp = np.asarray(bp, dtype=float)
         X = np.array(out["X"]); P = np.array(out["P"]); L = X.shape[0]; S = P.shape[0]
         B = np.array(case["B"]); Bs = B - bp
-        W = np.tile(np.asarray(case["w"], dtype=float), (S, 1))
+        W = np.asarray(case["Wrows"], dtype=float) if case.get("Wrows") else np.tile(np.asarray(case["w"], dtype=float), (S, 1))
         mask = np.ones((L, n)) if case["mask"] is None else np.array(case["mask"])
         e = (W * Bs).ravel()
         lastX = case["sub"] is None
@@ -228,6 +235,56 @@ class C11(Prop):
             return {"what": "two runs with seed %d differ by %.3g" % (case["seed"], out["same"]), "class": "seed"}
         return None
 
+    # (T) sample counts far beyond what the Coq VM can evaluate (the P-step decouples per sample: each row checked against a bounded least-squares reference)
+    def extra_checks(self, ctx):
+        from scipy.optimize import lsq_linear as bvls
+        import random
+        rng = random.Random(int(ctx.get("seed", 0)) + 1711)
+        bad = []; n = 0
+        for S, sub in ((2300, "fast"), (1100, 0.5)):
+            for _ in range(20):
+                sys = gs.gen_system(rng, mrange=(3, 3), nrange=(3, 4), finite_ub=True, lb_zero=True, Kkind="vector")
+                Ap, bp = gs.K_apply(sys["K"], sys["A"], base_vec(sys["baseline"], 3))
+                if np.all(np.asarray(Ap) >= 0) and np.all(np.asarray(bp) >= 0) and not np.any(sys["lb"]):
+                    break
+            Ap = np.asarray(Ap, dtype=float); bp = np.asarray(bp, dtype=float); nn = sys["n"]; L = 2
+            nr = np.random.default_rng(rng.randint(0, 10 ** 6))
+            Xt = nr.uniform(0.1, 1.0, (L, nn)) * sys["ub"]; Pt = nr.uniform(0, 1, (S, L))
+            B = (Pt @ Xt @ Ap.T) * nr.uniform(0.9, 1.1, (S, 3)) + bp
+            lbp, ubp = 0.0625, 1.0
+            n += 1
+            try:
+                est = gs.make_estimator(sys)
+                X, P, Bp = est.fit_decomposition(B, n_layers=L, lbp=lbp, ubp=ubp, max_iter=3, seed=5, subsample=sub, **TIGHT)
+            except Exception as e:  # noqa
+                bad.append({"class": "large:raises:%s" % type(e).__name__, "what": "fit_decomposition on %d samples raised %s" % (S, str(e)[:120]), "payload": {}, "found": True}); continue
+            X = np.asarray(X, dtype=float); P = np.asarray(P, dtype=float)
+            what = None
+            if P.shape != (S, L) or np.any(P < lbp - 1e-6) or np.any(P > ubp + 1e-6):
+                what = "opacities outside [%g, %g] (min %.4g, max %.4g) for %d samples" % (lbp, ubp, float(P.min()), float(P.max()), S)
+            elif np.max(np.abs(P @ X @ Ap.T + bp - np.asarray(Bp))) > 1e-8 * (1 + np.max(np.abs(Bp))):
+                what = "B_pred is not the model capture of opacities times intensities for %d samples" % S
+            else:
+                C = Ap @ X.T; worst = 0.0; wi = -1
+                for i in range(S):
+                    r = bvls(C, B[i] - bp, bounds=(lbp, ubp), method="bvls")
+                    mine = float(np.sum((C @ P[i] - (B[i] - bp)) ** 2)); ref = float(2 * r.cost)
+                    if mine - ref > worst:
+                        worst, wi = mine - ref, i
+                if worst > 1e-5 * (1 + float(np.sum((B - bp) ** 2)) / S):
+                    what = "sample %d of %d: squared error of the returned opacities exceeds the bounded least-squares optimum by %.4g (the factor fitted last is not optimal)" % (wi, S, worst)
+            if what:
+                bad.append({"class": "large:" + ("p-bounds" if "opacities" in what else ("prediction" if "B_pred" in what else "not-optimal:P")), "what": what,
+                            "payload": {"S": S, "subsample": sub, "seed": int(ctx.get("seed", 0)) + 1711}, "found": True})
+        ctx["large_n"] = n; ctx["large_bad"] = len(bad)
+        return bad
+
+    def extra_obligations(self, ctx):
+        return ctx.get("large_n", 0)
+
+    def extra_failed(self, ctx):
+        return ctx.get("large_bad", 0)
+
     def nontrivial(self, case, out):
         return case["L"] >= 2 or (case["mask"] is not None and any(0.0 in r for r in case["mask"])) or case["sub"] is not None
 
@@ -241,7 +298,8 @@ class C11(Prop):
                 it[o["iters"]] = it.get(o["iters"], 0) + 1
                 for s in o["status"]:
                     stt[s] = stt.get(s, 0) + 1
-        return {"alternating_iterations_histogram": {str(k): v for k, v in sorted(it.items())}, "solver_status": stt}
+        return {"alternating_iterations_histogram": {str(k): v for k, v in sorted(it.items())}, "solver_status": stt,
+                "large_sample_runs_vs_bvls_reference (T)": ctx.get("large_n", 0)}
 
     def describe(self, case, out):
         return {"case": core.hexf(core.pub(case)), "out": core.hexf(out)}
